@@ -220,7 +220,8 @@ Inductive vop :=
   | VRangeFor (e : eexpr)      (* for (auto &f_i : f) f_i = e(f_i, -, v); *)
   | VInner (alg : inner_alg) (eq_sizes : bool) (init : Z) (acc : ebin) (e : eexpr)
                                (* [Expects(equal sizes);] std::inner_product | std::transform_reduce (a, b, init, acc, e) *)
-  | VConcat (order : list side).   (* ret.insert(end(ret), x...) for x in order *)
+  | VConcat (empty_when : sexpr) (order : list side).
+                               (* [if (empty_when) return {};]  ret.insert(end(ret), x...) for x in order *)
 
 Definition veval_binary (v : vop) (a b : vec) : option vec :=
   match v with
@@ -256,7 +257,7 @@ Definition veval_inner (v : vop) (a b : vec) : option f64 :=
 
 Definition veval_concat (v : vop) (a b : vec) : option vec :=
   match v with
-  | VConcat order => Some (fold_left (fun ret x => ret ++ pick x a b) order [])
+  | VConcat g order => Some (if seval g a b then [] else fold_left (fun ret x => ret ++ pick x a b) order [])
   | _ => None
   end.
 
